@@ -68,6 +68,13 @@ def c01_context_layouts(tier, access="r"):
                     Ls.append(Layout(W, [Field("only", ty, [(1, w)], None, access)], tag=f"single {ty.decl_ty()} at bit 1 as the only field of u{W}"))
         if W >= 8:
             Ls.append(Layout(W, [Field("only", T_uint(3), [(2, 3)], None, access)], tag=f"single u3 as the only field of u{W}"))
+    # pairs of fields whose (lowest bit, width) digit strings concatenate to the same text: (2,13) / (21,3), (4,18) / (41,8), (1,12) / (11,2) ...
+    for (W, pairs) in ((32, [((2, 13), (21, 3)), ((1, 12), (11, 2))]), (64, [((4, 18), (41, 8)), ((3, 16), (31, 6)), ((1, 11), (11, 1))]), (128, [((1, 100), (110, 0 + 10))] if False else [((1, 27), (12, 7)), ((10, 1), (1, 1))]), (24, [((1, 10), (11, 0 + 1))] if False else [((2, 10), (21, 0 + 2))] if False else [((1, 12), (11, 2))])):
+        for (a_, b_) in pairs:
+            for order in (0, 1):
+                fa = Field("x", ty_for_width(a_[1], "u1"), [a_], None, access)
+                fb = Field("y", ty_for_width(b_[1], "u1"), [b_], None, access)
+                Ls.append(Layout(W, [fa, fb] if order == 0 else [fb, fa], tag=f"fields at {a_} and {b_} (same digit string when lowest bit and width are concatenated) on u{W}"))
     # bit positions written with a leading zero are still decimal
     for W in (16, 32, 128, 24):
         Ls.append(Layout(W, [Field("a", T_uint(2), [(10, 2)], None, access, zero_pad=True), Field("b", T_bool(), [(W - 1 if W - 1 < 78 else 77, 1)], None, access, zero_pad=True),
@@ -185,6 +192,7 @@ def c02_extra_layouts(tier):
         Ls.append(Layout(W, [Field("f", T_uint(10), [(W - 4, 4), (3, 3), (6, 3)], None, "rw")], tag=f"list far entry first then adjacent entries on u{W}"))
         Ls.append(Layout(W, [Field("f", T_uint(9), [(6, 3), (3, 3), (0, 3)], None, "rw")], tag=f"list with descending adjacent entries on u{W}"))
         Ls.append(Layout(W, [Field("f", T_uint(6), [(2, 1), (3, 1), (4, 1), (8, 3)], None, "rw")], tag=f"single bits continuing each other then a range on u{W}"))
+        Ls.append(Layout(W, [Field("a", T_uint(4), [(0, 4)], (2, 8, True), "rw", attr_split="access_last"), Field("b", T_bool(), [(5, 1)], None, "rw", attr_split="access_first"), Field("c", T_int(8), [(W - 8, 8)], None, "w", attr_split="access_last")], tag=f"fields whose attribute arguments are split over two attributes on u{W}"))
         if not is_native(W):
             # arbitrary-int base: a list whose NON-last item ends on the top bit
             Ls.append(Layout(W, [Field("f", T_uint(W), [(W - 8, 8), (8, W - 16), (0, 8)], None, "rw")], tag=f"full-width byte-swapped-ends list on u{W}"))
@@ -1038,6 +1046,10 @@ def c12_directed_layouts():
               Field("bytes", T_uint(8), [(0, 8)], (2, 8, False), "rw"),
               Field("top", T_bool(), [(W - 1, 1)], None, "rw")]
         Ls.append(Layout(W, fs, tag=f"overlapping views: arrays of range lists (first range not at bit 0), strided nibbles, bytes; attribute argument order '{order}' on u{W}"))
+        K = min(W // 8, 4)
+        fs2 = [Field("swapped", T_uint(8), [(4, 4), (0, 4)], (K, 8, True), "rw"), Field("rev", T_uint(4), [(3, 1), (2, 1), (1, 1), (0, 1)], (K, 8, True), "rw"),
+               Field("plain", T_uint(8), [(0, 8)], (K, 8, False), "rw"), Field("split", T_uint(4), [(4, 4)], (K, 8, True), "rw", attr_split="access_last")]
+        Ls.append(Layout(W, fs2, tag=f"permuted gap-free range lists on arrays next to plain views of the same bits; a field whose arguments are split over two attributes; on u{W}"))
     return Ls
 
 
@@ -1466,6 +1478,7 @@ def c16_layouts(tier, seed):
         if W >= 16:
             K = min(W // 8, 4)
             Ls.append(Layout(W, [Field("a", T_uint(8), [(4, 4), (0, 4)], (K, 8, True), "rw"), Field("b", T_uint(4), [(3, 1), (2, 1), (1, 1), (0, 1)], (K, W // K, True), "rw")], tag=f"arrays of DESCENDING range lists on u{W}"))
+            Ls.append(Layout(W, [Field("v", T_uint(8), [(0, 4), (8, 4)], (3, 0, True), "rw"), Field("w", T_uint(2), [(W - 1, 1), (W - 3, 1)], (2, 0, True), "rw")], tag=f"range-list arrays with stride 0 on u{W}"))
         # range lists of native-typed fields split at the extreme sizes: (n-1 | 1), (1 | n-1), halves;
         # signed and unsigned; the first piece at bit 0, the last ending on the top bit when it fits
         for n in NATIVE:
@@ -2069,6 +2082,16 @@ def c10_candidates(tier, seed):
         e.implicit = tuple(implicit)
         e.tag = f"u{bits}: implicit discriminants for {implicit} (values previous+1 = {names_discr}), exhaustive={ex}"
         C.append((e, "implicit-discriminant"))
+    # discriminants given as named constants (must be rejected: only integer literals are allowed)
+    for (bits, ds, cn, ex, rp) in ((2, [0, 1, 7], ["V2"], None, "u8"), (2, [0, 1, 2, 4], ["V3"], "true", "u8"), (3, [0, 5], ["V1"], None, "u8"), (4, [1, 200], ["V1"], "false", "u8"), (2, [0, 1, 2, 3], ["V0", "V3"], "true", "u8")):
+        vs = [(f"V{i}", d, None) for i, d in enumerate(ds)]
+        e = EnumDef("E", bits, vs, ex)
+        e.const_discr, e.repr = tuple(cn), rp
+        e.tag = f"u{bits}: discriminants of {cn} given as named constants ({ds}), exhaustive={ex}"
+        C.append((e, "constant-discriminant"))
+    # exhaustive = true with cfg-gated alternatives that share a discriminant
+    for (bits, ds, cfg) in ((1, [0, 1, 1], [None, "off", "off"]), (1, [0, 1, 1], [None, "on", "off"]), (2, [0, 1, 2, 3, 3], [None, None, None, "off", "off"]), (2, [0, 0, 1, 2, 3], ["off", "on", None, None, None])):
+        add1(bits, ds, "true", "cfg-without-conditional", f"u{bits}: exhaustive = true with cfg'd alternatives sharing a discriminant {list(zip(ds, cfg))}", cfg=cfg)
     # unsupported storage sizes
     add(65, [0, 1], None, "bad-storage-size", "u65 storage")
     add(0, [0], None, "bad-storage-size", "u0 storage")
